@@ -43,6 +43,9 @@ Oracle calibration
     min/max, a non-member, a length out of bounds, the wrong JSON kind); true/false and 5.0 offered for an integer are
     judged by the integer they denote; +-Infinity for a double and null for an optional struct member are not judged;
     'must accept' only for canonical payloads (the C04 reference conversion), nested structs may or may not be merged.
+  * D4 readings: a reading the described datainfo can not import (too long a string / blob / array, a non-member) must
+    come out as error_read / error_update; this is probed with readings valid for the class-level datatype where the
+    configuration narrowed it.  Numbers beyond the described min/max are importable by design and may be emitted.
   * D5: readonly=false predicts 'not refused as ReadOnly' (a change may still be refused for its value).
   * D2 does not compare the order of names.  D6 reference: first of Drivable/Writable/Readable/Communicator in the MRO (by
     class identity), names of MRO classes that have frappy.modulebase.Feature as a direct base.
@@ -270,13 +273,15 @@ def gen_configs(shape):
     name = shape['name']
     cfgs = [('plain', {})]
     if name == 'GA':
-        cfgs.append(('dtprops', {'value': {'unit': 'K'}, 'target': {'min': 1.0, 'max': 9.0}, 'foo': {'value': 3},
+        cfgs.append(('dtprops', {'value': {'unit': 'K', 'min': -50.0, 'max': 50.0}, 'target': {'min': 1.0, 'max': 9.0},
+                                 'foo': {'value': 3, 'max': 6},
                                  'visibility': 'expert', 'group': 'grp', 'pollinterval': {'value': 7.0},
                                  'bar': {'min': -2}, 'lvl': {'fmtstr': '%.2f'}}))
         cfgs.append(('cfgconst', {'foo': {'constant': 7}, 'value': {'unit': 'mm'}}))
         cfgs.append(('cfgexport', {'foo': {'export': False}, 'bar': {'export': 'barx'}}))
     if name == 'GB':
         cfgs.append(('dtprops', {'s': {'maxchars': 2, 'value': 'ab'}, 'arr': {'maxlen': 2}, 'ro': {'default': 7},
+                                 'bl': {'maxbytes': 2},
                                  'meaning': ['temperature', 10], 'e': {'value': 'b'}, 'c': {'visibility': 'expert'}}))
         cfgs.append(('cfgconst', {'s': {'constant': 'xy'}, 'ro': {'constant': 5}, 'st': {'constant': {'a': 1, 'b': 'q'}}}))
         cfgs.append(('cfgexport', {'hid': {'export': True}, 'cus': {'export': False}, 'cmd0': {'export': False}}))
@@ -286,6 +291,8 @@ def gen_configs(shape):
     if name in ('GD', 'GF'):
         cfgs.append(('dtprops', {'value': {'unit': 'K', 'min': -10.0, 'max': 500.0}}))
     if name == 'GK':
+        # datatype properties of parameters with read methods narrowed by the configuration
+        cfgs.append(('narrowed', {'kr': {'max': 4}, 'krq': {'max': 2.5}}))
         # parameters with their own read_<p> (returning something else) made constant by the configuration
         cfgs.append(('cfgconst', {'kr': {'constant': 2}, 'krq': {'constant': 0.75}, 'kre': {'constant': 'a'}}))
     return cfgs
@@ -774,25 +781,45 @@ class Checker:
                 cur = rr[2][0]
         return cdt
 
-    def feed_readings(self, m, wire, attr, spec):
-        """D4: fake driver answers read_<p> with valid readings and with readings beyond the limits"""
+    def feed_readings(self, m, wire, attr, spec, class_spec=None):
+        """D4: fake driver answers read_<p> with readings valid for the described datainfo, readings valid for the datatype
+        the CLASS declares (the configuration may have narrowed it: such a reading must come out as an error, never as a
+        value), and readings just beyond / far beyond the described bounds"""
         mod = self.node.secnode.modules[m]
         drv = G.module_driver(mod)
         readings = list(V.valid(spec, 'drv'))
+        if class_spec is not None and class_spec != spec:
+            readings += list(V.valid(class_spec, 'drv'))
+            self.part.extra['parameters_read_with_class_level_readings'] += 1
         k = spec[0]
         if k == 'double':
             lo, hi, _, _ = T.double_limits(spec)
-            readings += [x for x in (hi + 5.0, lo - 5.0, hi * 2 + 1) if abs(x) < 1e300]
+            readings += [x for x in (hi + 1.0, lo - 1.0, hi + 5.0, lo - 5.0, hi * 2 + 1) if abs(x) < 1e300]
         elif k == 'int':
             lo, hi = T.int_limits(spec)
-            readings += [hi + 5, lo - 5]
+            readings += [hi + 1, lo - 1, hi + 5, lo - 5]
         elif k == 'scaled':
             scale, lo, hi = T.scaled_limits(spec)
-            readings += [hi + 5 * scale, lo - 5 * scale, lo + 0.4 * scale]
-        elif k == 'string' and spec[2] is not None:
-            readings += ['x' * (spec[2] + 2)]
+            readings += [hi + scale, lo - scale, hi + 5 * scale, lo - 5 * scale, lo + 0.4 * scale]
+        elif k == 'string':
+            if spec[2] is not None:
+                readings += ['x' * (spec[2] + 1), 'x' * (spec[2] + 2)]
+            if spec[1]:
+                readings += ['x' * (spec[1] - 1)]
+        elif k == 'blob':
+            readings += [b'x' * (spec[2] + 1), b'x' * (spec[2] + 2)] + ([b'x' * (spec[1] - 1)] if spec[1] else [])
         elif k == 'array':
-            readings += [[V.valid(spec[1], 'drv')[0]] * (spec[3] + 2)]
+            e = V.valid(spec[1], 'drv')[0]
+            readings += [[e] * (spec[3] + 1), [e] * (spec[3] + 2)] + ([[e] * (spec[2] - 1)] if spec[2] else [])
+        elif k == 'enum':
+            values = [v for _, v in spec[1]]
+            readings += [max(values) + 1, min(values) - 1]
+        seen, uniq = set(), []
+        for r in readings:
+            if repr(r) not in seen:
+                seen.add(repr(r))
+                uniq.append(r)
+        readings = uniq
         for r in readings:
             drv.script[('read', attr)] = r
             reply = self.req(f'read {m}:{wire}')
@@ -940,7 +967,7 @@ class Checker:
                 if rfunc:
                     spec = spec_from_datainfo(acc['datainfo'])
                     if spec:
-                        self.feed_readings(m, wire, info['attr'], spec)
+                        self.feed_readings(m, wire, info['attr'], spec, info['rec']['spec'])
         # D4 on everything collected (+ D5: whatever is emitted for a described constant is that constant)
         for source, m, w, v in self.emitted:
             cdt = cdts.get((m, w))
